@@ -1,5 +1,6 @@
 import Driver.Util
 import Sqfs.Spec.TarNumber
+import Sqfs.Model.TarSparse
 namespace Driver.C04
 open Sqfs.Tar
 
@@ -11,6 +12,69 @@ def withHex (h : String) (f : Bytes → String) : String :=
   match fromHex h with
   | some b => f b
   | none => "bad-op"
+
+def octStr (n : Nat) : String := String.ofList (Nat.toDigits 8 n)
+
+def optHex : Option Bytes → String
+  | none => "null"
+  | some b => toHexTok b
+
+def showPairs (l : List (Nat × Nat)) : String :=
+  if l.isEmpty then "-" else ",".intercalate (l.map fun p => s!"{p.1}:{p.2}")
+
+def showXattr (l : List (Bytes × Bytes)) : String :=
+  if l.isEmpty then "-" else ",".intercalate (l.map fun p => toHexTok p.1 ++ ":" ++ toHexTok p.2)
+
+def showDecoded (d : Decoded) : String :=
+  s!"name={optHex d.name} link={optHex d.link} mode={octStr d.mode} uid={d.uid} gid={d.gid} maj={d.devMajor} min={d.devMinor} " ++
+  s!"mtime={d.mtime} rsize={d.recordSize} asize={d.actualSize} unk={if d.unknown then 1 else 0} hl={if d.hardLink then 1 else 0} " ++
+  s!"sparse={showPairs d.sparse} xattr={showXattr d.xattr}"
+
+def parseOct (s : String) : Option Nat :=
+  s.toList.foldl (fun acc c => match acc with
+    | none => none
+    | some a => if '0' ≤ c ∧ c ≤ '7' then some (a * 8 + (c.toNat - 48)) else none) (some 0)
+
+def parseXattrs : List String → Option (List (Bytes × Bytes))
+  | [] => some []
+  | [_] => none
+  | k :: v :: r => do
+    let kb ← fromHex k
+    let vb ← fromHex v
+    let t ← parseXattrs r
+    pure ((kb, vb) :: t)
+
+/-- `enc <flags> <mode-octal> <uid> <gid> <size> <mtime> <maj> <min> <counter> <name> <target|null> {<key> <value>}` -/
+def parseEnc (ws : List String) : Option (WEntry × Option Bytes × List (Bytes × Bytes) × Nat) :=
+  match ws with
+  | fl :: mo :: ui :: gi :: sz :: mt :: mj :: mi :: cn :: nm :: tg :: xs => do
+    let fl ← fl.toNat?
+    let mo ← parseOct mo
+    let ui ← ui.toNat?
+    let gi ← gi.toNat?
+    let sz ← sz.toNat?
+    let mt ← mt.toInt?
+    let mj ← mj.toNat?
+    let mi ← mi.toNat?
+    let cn ← cn.toNat?
+    let nm ← fromHex nm
+    let tg ← if tg = "null" then some none else (fromHex tg).map some
+    let xs ← parseXattrs xs
+    pure ({ name := nm, mode := mo, uid := ui, gid := gi, size := sz, mtime := mt, devMajor := mj, devMinor := mi,
+            hardLink := fl / 2 % 2 = 1 }, tg, xs, cn)
+  | _ => none
+
+def showIter (es : List IterEntry) (e : IterEnd) : String :=
+  let one (x : IterEntry) : String :=
+    s!"name={toHexTok x.name} mode={octStr x.mode} flags={if x.hardLink then 2 else 0} uid={x.uid} gid={x.gid} mtime={x.mtime} size={x.size}" ++
+    (if fmt x.mode = S_IFLNK then " link=" ++ optHex x.link else "") ++
+    (match x.data with
+     | none => ""
+     | some r => match r.ending with
+       | .corrupted => " data=corrupted"
+       | .eof => " data=" ++ (if r.out.length > 8192 then "big" else toHexTok r.out) ++ s!" len={r.out.length}")
+  let body := " | ".intercalate (es.map one)
+  (if es.isEmpty then "" else body ++ " | ") ++ (if e = .eof then "end=1" else "end=-1")
 
 def step (line : String) : String :=
   match words line with
@@ -29,6 +93,24 @@ def step (line : String) : String :=
   | ["ck", h] => withHex h fun b => if b.length = 512 then toString (computeChecksum b) else "bad-op"
   | ["ckv", h] => withHex h fun b => if b.length = 512 then (if isChecksumValid b then "1" else "0") else "bad-op"
   | ["upd", h] => withHex h fun b => if b.length = 512 then toHexTok (updateChecksum b) else "bad-op"
+  | ["pdl", n] => match n.toNat? with
+    | some n => toString (prefixDigitLen n)
+    | none => "bad-op"
+  | "enc" :: ws => match parseEnc ws with
+    | some (e, tg, xs, cn) => match writeTarHeader e tg xs cn with
+      | some b => "ok " ++ toHexTok b
+      | none => "err -"
+    | none => "bad-op"
+  | "enccur" :: ws => match parseEnc ws with
+    | some (e, tg, xs, cn) =>
+      let (b, ok) := writeTarHeaderCur e tg xs cn
+      (if ok then "ok " else "err ") ++ toHexTok b
+    | none => "bad-op"
+  | ["dec", h] => withHex h fun s => match readHeader s with
+    | .eof => "eof"
+    | .err => "err"
+    | .ok d rest => "ok " ++ showDecoded d ++ s!" consumed={s.length - rest.length}"
+  | ["iter", h] => withHex h fun s => let (es, e) := iterate s; showIter es e
   | _ => "bad-op"
 
 def run (_args : List String) : IO Unit := do
